@@ -36,6 +36,34 @@ def run(c, tier, sim_file_cfg, sim_store_cfg, want_trunc):
     neg = vlib.tlc_mc("RaftLog.tla", "MC_RaftLog_bug.cfg", expect_violation="TruncateExact", name=c.pid + "_neg")
     c.add_negative_control("RaftLog with a truncation that keeps the entry at k violates TruncateExact", neg["violated"])
 
+    # ---- MC of the implementation-shaped refinement of one log file + its four defect controls
+    lf = vlib.tlc_mc("LogFile.tla", "MC_LogFile.cfg" if quick else "MC_LogFile_thorough.cfg", name=c.pid + "_lf", timeout=3000)
+    vlib.require_actions(lf, ["Write", "Strip", "Reopen"])
+    c.add_mc(lf)
+    for d, inv in (("CutOnIndexPoint", "DiskIsLog"), ("RewindWidth", "ReopenAgrees"),
+                   ("ClearTwoBytes", "DiskIsLog"), ("GrowStrict", "ReopenAgrees")):
+        n = vlib.tlc_mc("LogFile.tla", "MC_LogFile_defect_%s.cfg" % d, expect_violation=inv, name=c.pid + "_lfneg")
+        c.add_negative_control("LogFile with Defect_%s violates %s" % (d, inv), n["violated"])
+
+    # ---- thin cases chosen by the implementation-shaped model: a record that fits the preallocated
+    #      file exactly, followed by a reopen (cell = 65280 B: 16 cells = 1 MiB - 4096)
+    lfb = vlib.tlc_sim("LogFile.tla", "SIM_LogFile.cfg", num=3000 if quick else 20000, depth=12, seed=c.seed + 7, name=c.pid + "_lfsim")
+
+    def exact_then_reopen(b):
+        st = b["steps"]
+        return any(st[i]["op"] == "append" and st[i].get("exact_fit") and i + 1 < len(st) and st[i + 1]["op"] == "reopen"
+                   for i in range(len(st)))
+    thin = [b for b in lfb if exact_then_reopen(b)]
+    if len(thin) < 5:
+        raise ToolError("LogFile simulation produced too few exact-fit behaviours: %d" % len(thin))
+    thin = thin[: (30 if quick else 400)]
+    tf = vlib.write_ndjson(os.path.join(sc, "thin_beh.ndjson"), thin)
+    res = vlib.harness(["replay", "logfile", tf, "--unit", 65280, "--interval", 2], timeout=3000)
+    vlib.replay_results(c, thin, res, keyfn(c.pid), "log file, exact fit of the preallocated area (unit=65280B)",
+                        nontrivial=lambda b: {"b": b, "u": 65280})
+    c.cov["thin_exact_fit_behaviours"] = len(thin)
+    c.sample({"exact_fit_behaviour_ops": [(s["op"], s.get("sz"), s.get("exact_fit")) for s in thin[0]["steps"]]})
+
     nontriv = (lambda b: any(s["op"] == "truncate" and s["k"] < s["obs"]["end"] + 99 for s in b["steps"])) if want_trunc \
         else (lambda b: any(s["op"] == "reopen" for s in b["steps"]))
 
